@@ -297,7 +297,7 @@ POOL_V = [
     # str() collisions with non-str values
     S("1"), S("True"), S("None"), S("1.0"), S("1.5"), S("[]"), S("['A']"),
     # numbers at and around the RANGE bounds; bool is never a number
-    True, False, I(0), I(1), I(2), I(5), I(6), I(-1), I(3), I(10 ** 20), I(10 ** 20 + 2 ** 15), I(-(10 ** 20)),
+    True, False, I(0), I(1), I(2), I(5), I(6), I(-1), I(3), I(10 ** 20), I(10 ** 20 + 2 ** 15), I(-(10 ** 20)), I(10 ** 400), I(-(10 ** 400)), I(2 ** 53),
     F(1.0), F(0.5), F(0.9999999999999999), F(5.0), F(5.000000000000001), F(2.5), F(2.5000000000000004), F(-1.5), F(-1.5000000000000002),
     F(0.0), F(-0.0), F(math.inf), F(-math.inf), F(math.nan), F(1e20), F(1.5),
     # numeric strings: bounds, whitespace, underscore, non-finite, non-ASCII digits, junk
@@ -323,7 +323,7 @@ POOL_V = [
 
 # values the parse-path evaluation uses (a cross-section of POOL_V)
 POOL_V_SMALL = [None, S(""), S("ACTIVE"), S("ACT"), S("ACTIV"), S("D"), S("TIV"), S("abc"), S("abcd"), S("ab"), S("a\n"), True, I(1), I(5), I(6), I(0),
-                F(1.0), F(2.5), F(5.000000000000001), F(math.nan), S("5"), S("6"), S("nan"), S("1_0"), S("٣"), L(), L(S("A")), L(I(1), I(2), I(3)),
+                F(1.0), F(2.5), F(5.000000000000001), F(math.nan), I(10 ** 400), S("5"), S("6"), S("nan"), S("1_0"), S("٣"), L(), L(S("A")), L(I(1), I(2), I(3)),
                 L(S("a"), S("b"), S("c"), S("d")), S("2024-01-15"), S("2024-02-30"), S("2024-01-15T10:00:00Z"), S("a\x00b"), Z("x", "Python"), Z("x", None), S("1.5"), S("X")]
 
 # constraint texts for ConstraintChain.parse: (text) — well-formed, quirky and malformed
